@@ -48,6 +48,30 @@ func TestVerif_C15_SeqSimple(t *testing.T) {
 					next++
 				}
 			},
+			"burst": func(rt *rapid.T) {
+				k := rapid.IntRange(20, 300).Draw(rt, "k")
+				ops = append(ops, fmt.Sprintf("add x%d from %d", k, next))
+				for i := 0; i < k; i++ {
+					q.Add(next)
+					model = append(model, next)
+					next++
+				}
+			},
+			"popMany": func(rt *rapid.T) {
+				if len(model) < 2 {
+					rt.Skip("nearly empty")
+				}
+				j := rapid.IntRange(1, len(model)).Draw(rt, "j")
+				ops = append(ops, fmt.Sprintf("pop x%d", j))
+				for i := 0; i < j; i++ {
+					v, ok := q.Pop()
+					if !ok || v != model[0] {
+						fail("pop-order", fmt.Sprintf("Pop = (%d,%v), model head %d", v, ok, model[0]))
+					}
+					model = model[1:]
+				}
+				popAfterAdd = true
+			},
 			"pop": func(rt *rapid.T) {
 				v, ok := q.Pop()
 				ops = append(ops, fmt.Sprintf("pop=%d,%v", v, ok))
@@ -124,7 +148,7 @@ func TestVerif_C15_SeqPriority(t *testing.T) {
 		var model []*c15Item // kept sorted by counter (stable)
 		var ops []string
 		next := 0
-		ties, nextAllUsed, nextAllErr := false, false, false
+		ties, nextAllUsed, nextAllErr, bursts := false, false, false, false
 		fail := func(ident, msg string) {
 			acct.Violation("seq-priority/"+ident, "TestVerif_C15_SeqPriority", map[string]any{"ops": ops, "msg": msg})
 			rt.Fatalf("%s: %s (ops %v)", ident, msg, ops)
@@ -161,6 +185,39 @@ func TestVerif_C15_SeqPriority(t *testing.T) {
 				pq.Add(it)
 				model = append(model, it)
 				ops = append(ops, fmt.Sprintf("add(#%d,c=%d)", it.id, c))
+			},
+			"burst": func(rt *rapid.T) {
+				// many messages of a device parked at once (its key has not arrived yet)
+				k := rapid.IntRange(20, 300).Draw(rt, "k")
+				mul := rapid.Uint64Range(1, 1<<20).Draw(rt, "mul")
+				for i := 0; i < k; i++ {
+					c := (uint64(i+1) * mul * 0x9E3779B97F4A7C15) % (cmax/2 + 1)
+					it := &c15Item{id: next, c: c}
+					next++
+					pq.Add(it)
+					model = append(model, it)
+				}
+				bursts = true
+				ops = append(ops, fmt.Sprintf("burst(k=%d,mul=%d)", k, mul))
+			},
+			"nextMany": func(rt *rapid.T) {
+				if len(model) < 2 {
+					rt.Skip("nearly empty")
+				}
+				j := rapid.IntRange(1, len(model)).Draw(rt, "j")
+				ops = append(ops, fmt.Sprintf("next x%d", j))
+				for i := 0; i < j; i++ {
+					it := pq.Next()
+					if it == nil {
+						fail("next-lost", fmt.Sprintf("Next returned nothing with %d pending", len(model)))
+					}
+					if it.c != minCounter() {
+						fail("next-not-min", fmt.Sprintf("Next gave counter %d, smallest pending %d", it.c, minCounter()))
+					}
+					if !remove(it) {
+						fail("next-dup", fmt.Sprintf("Next gave item #%d which is not pending (duplicate or invented)", it.id))
+					}
+				}
 			},
 			"next": func(rt *rapid.T) {
 				it := pq.Next()
@@ -247,7 +304,7 @@ func TestVerif_C15_SeqPriority(t *testing.T) {
 		}
 		nt := ties && next >= 3
 		acct.Case(nt, "prio:"+strings.Join(ops, ","), func() any { return map[string]any{"kind": "seq-priority", "ops": ops} },
-			"seq-priority", lbl(ties, "seq-priority/ties"), lbl(nextAllUsed, "seq-priority/nextall"), lbl(nextAllErr, "seq-priority/nextall-callback-error"))
+			"seq-priority", lbl(ties, "seq-priority/ties"), lbl(nextAllUsed, "seq-priority/nextall"), lbl(nextAllErr, "seq-priority/nextall-callback-error"), lbl(bursts, "seq-priority/burst-of-parked-items"))
 	})
 }
 
